@@ -4,7 +4,7 @@
    [pack]/[unpack] model ormsgpack.packb/unpackb (Model/C01.v); the header constants and ormsgpack's
    nesting limits come from Gen/C01_RowFmt.v, regenerated on every run. *)
 From Coq Require Import List NArith ZArith Bool.
-From Orso Require Import Gen.C01_RowFmt Model.C01 Proofs.C01.
+From Orso Require Import Gen.C01_RowFmt Model.C01 Model.C01_Sched Proofs.C01 Proofs.C01_Sched.
 Import ListNotations.
 Open Scope N_scope.
 
@@ -143,3 +143,73 @@ Proof. vm_compute. repeat split. Qed.
 (* the hypotheses of C01_oversize_refused / the Raise branches are reachable too: an integer outside 64 bits *)
 Example C01_unencodable : encode_row 0 [MInt 18446744073709551616] = Raise TypeError.
 Proof. reflexivity. Qed.
+
+(* ---- every schedule (round 2): Row.as_bytes run by any number of threads, switched between any two of its
+   statements.  [run step fin sched sh th] gives one turn to each thread id of [sched] in order; [enc_step] is
+   as_bytes statement by statement (Model/C01_Sched.v); [Sh] is whatever module-level state exists - as_bytes
+   neither reads nor writes it. ---- *)
+
+(* Whatever the interleaving, a thread that has returned (or raised) got exactly what the sequential
+   [encode_row] gives on its own row and its own clock reading: every theorem above therefore applies to every
+   record emitted under every schedule. *)
+Theorem C01_any_schedule :
+  forall (Sh : Type) (inp : nat -> N * list mval) (sched : list nat) (sh : Sh) (i : nat) (r : result bytes),
+  enc_result (snd (run (@enc_step Sh) enc_fin sched sh (enc_start inp))) i = Some r ->
+  r = encode_row (fst (inp i)) (snd (inp i)).
+Proof. exact @any_schedule. Qed.
+Print Assumptions C01_any_schedule.
+
+(* ... and a thread that was given [enc_steps] turns has finished, however the turns were interleaved. *)
+Theorem C01_any_schedule_complete :
+  forall (Sh : Type) (inp : nat -> N * list mval) (sched : list nat) (sh : Sh) (i : nat),
+  (enc_steps <= turns i sched)%nat ->
+  enc_result (snd (run (@enc_step Sh) enc_fin sched sh (enc_start inp))) i
+  = Some (encode_row (fst (inp i)) (snd (inp i))).
+Proof. exact @any_schedule_complete. Qed.
+Print Assumptions C01_any_schedule_complete.
+
+(* Lossless under every schedule: a record emitted by thread i, whatever the other threads did meanwhile, is
+   accepted and decodes to thread i's row. *)
+Theorem C01_any_schedule_roundtrip :
+  forall (Sh : Type) (inp : nat -> N * list mval) (sched : list nat) (sh : Sh) (i : nat) (rec : bytes),
+  enc_result (snd (run (@enc_step Sh) enc_fin sched sh (enc_start inp))) i = Some (Ok rec) ->
+  decode_row rec = post (snd (inp i)) /\
+  (no_datetime (snd (inp i)) = true -> decode_row rec = Ok (map CVal (snd (inp i)))).
+Proof. exact @any_schedule_roundtrip. Qed.
+Print Assumptions C01_any_schedule_roundtrip.
+
+(* the module-level state is left as it was *)
+Theorem C01_any_schedule_shared_untouched :
+  forall (Sh : Type) (inp : nat -> N * list mval) (sched : list nat) (sh : Sh),
+  fst (run (@enc_step Sh) enc_fin sched sh (enc_start inp)) = sh.
+Proof. exact @any_schedule_shared_untouched. Qed.
+Print Assumptions C01_any_schedule_shared_untouched.
+
+(* non-vacuity: three threads, turns interleaved one by one; all finish with their own records *)
+Definition nv_inp (i : nat) : N * list mval :=
+  match i with
+  | O => (1, nv_row)
+  | S O => (2, [MStr [97; 98; 99]])
+  | _ => (3, [MInt 18446744073709551616])       (* refused by packb *)
+  end.
+
+Example C01_schedule_nonvacuous :
+  let th := snd (run (@enc_step unit) enc_fin [0; 1; 2; 1; 0; 0; 1; 2; 1; 0; 1; 0]%nat tt (enc_start nv_inp)) in
+  enc_result th 0%nat = Some (encode_row 1 nv_row) /\
+  enc_result th 1%nat = Some (Ok [16; 0; 0; 0; 0; 5; 0; 0; 0; 0; 0; 0; 0; 2; 145; 163; 97; 98; 99]) /\
+  enc_result th 2%nat = Some (Raise TypeError) /\
+  enc_result th 3%nat = None.
+Proof. vm_compute. repeat split. Qed.
+
+(* the machine does tell a shared buffer apart: the variant that fills ONE module-level header in place and
+   copies it on the next line ([shv_step]) emits, under the schedule "thread 0 up to and including pack_into,
+   thread 1 from start to finish, thread 0 returns", a record that the decoder rejects - although the same
+   row encoded without a switch is accepted.  (This is a statement about the variant, not about /repo.) *)
+Example C01_shared_header_variant_refuted :
+  let inp := fun i : nat => match i with O => (1, [MInt 1]) | _ => (2, [MStr [97; 98; 99]]) end in
+  let hdr0 := row_HEADER_PREFIX ++ rep 12 0 in
+  (exists rec, shv_result (snd (run shv_step shv_fin [0; 0; 0; 1; 1; 1; 1; 0]%nat hdr0 (shv_start inp))) 0%nat = Some (Ok rec)
+               /\ decode_row rec = Raise DataError) /\
+  (exists rec, shv_result (snd (run shv_step shv_fin [0; 0; 0; 0; 1; 1; 1; 1]%nat hdr0 (shv_start inp))) 0%nat = Some (Ok rec)
+               /\ decode_row rec = Ok [CVal (MInt 1)]).
+Proof. split; eexists; (split; [vm_compute; reflexivity|]); vm_compute; reflexivity. Qed.
